@@ -19,6 +19,7 @@ import (
 	"github.com/bronlabs/bron-crypto/pkg/proofs/dlog/schnorr"
 	"github.com/bronlabs/bron-crypto/pkg/proofs/okamoto"
 	"github.com/bronlabs/bron-crypto/pkg/proofs/sigma"
+	"github.com/bronlabs/bron-crypto/pkg/proofs/sigma/compose/sigand"
 	"github.com/bronlabs/bron-crypto/pkg/proofs/sigma/compose/sigor"
 
 	"verif/harness/internal/vh"
@@ -507,6 +508,91 @@ func orLin[P curves.Point[P, F, S], F algebra.FieldElement[F], S algebra.PrimeFi
 			h.res.Count("sigma-simulate/"+id, cs, true)
 			if err != nil || proto.Verify(x, as, e, zs) != nil {
 				h.prop("sigma-simulate/"+id, cs, "simulated OR transcript does not verify", "simulator")
+			}
+		}
+	}
+	return &linCase{id: id, run: run}
+}
+
+// andLin: n-way AND of Schnorr statements at the sigma level, in the exponent: the honest
+// transcript verifies; a response / commitment / statement vector with one component more
+// or fewer is rejected by an error (Sigma.andn_verify checks every length against count).
+func andLin[P curves.Point[P, F, S], F algebra.FieldElement[F], S algebra.PrimeFieldElement[S]](
+	gname string, curve curves.Curve[P, F, S], count int, _ *vh.Rng,
+) *linCase {
+	field := algebra.StructureMustBeAs[algebra.PrimeField[S]](curve.ScalarStructure())
+	q := vh.ZHex(new(big.Int).SetBytes(curve.Order().Bytes()))
+	g := curve.Generator()
+	id := fmt.Sprintf("and%dschnorr/%s", count, gname)
+	run := func(h *harness, r *vh.Rng) {
+		defer h.flush()
+		rec := &recReader{r: r}
+		base := must(schnorr.NewProtocol(g, rec))
+		proto := must(sigand.Compose(base, uint(count)))
+		var sts []*schnorr.Statement[P, S]
+		var wts []*schnorr.Witness[S]
+		var xv []string
+		for i := 0; i < count; i++ {
+			w := must(field.Random(r))
+			sts = append(sts, schnorr.NewStatement(g.ScalarOp(w)))
+			wts = append(wts, schnorr.NewWitness(w))
+			xv = append(xv, vh.ZHex(sBig(w)))
+		}
+		x := must(sigand.ComposeStatements(sts...))
+		w := must(sigand.ComposeWitnesses(wts...))
+		L := proto.GetChallengeBytesLength()
+		e := r.Bytes(L)
+		a, st, err := proto.ComputeProverCommitment(x, w)
+		if err != nil {
+			panic(err)
+		}
+		z := must(proto.ComputeProverResponse(x, w, a, st, e))
+		var av, zv []string
+		for i := range a {
+			av = append(av, vh.ZHex(sBig(st[i].S)))
+			zv = append(zv, vh.ZHex(sBig(z[i].Z)))
+		}
+		type variantT struct {
+			name string
+			a    sigand.Commitment[*schnorr.Commitment[P, S]]
+			z    sigand.Response[*schnorr.Response[S]]
+			av   []string
+			zv   []string
+			want bool
+		}
+		vs := []variantT{
+			{"honest", a, z, av, zv, true},
+			{"response-appended", a, append(append(sigand.Response[*schnorr.Response[S]]{}, z...), z[count-1]), av, append(append([]string{}, zv...), zv[count-1]), false},
+			{"response-appended-arbitrary", a, append(append(sigand.Response[*schnorr.Response[S]]{}, z...), &schnorr.Response[S]{Z: field.One()}), av, append(append([]string{}, zv...), "1"), false},
+			{"commitment-appended", append(append(sigand.Commitment[*schnorr.Commitment[P, S]]{}, a...), a[count-1]), z, append(append([]string{}, av...), av[count-1]), zv, false},
+			{"both-appended", append(append(sigand.Commitment[*schnorr.Commitment[P, S]]{}, a...), a[count-1]), append(append(sigand.Response[*schnorr.Response[S]]{}, z...), z[count-1]), append(append([]string{}, av...), av[count-1]), append(append([]string{}, zv...), zv[count-1]), false},
+			// the shrinking ones last: a verifier that indexes past the end panics inside a
+			// library goroutine, which cannot be recovered
+			{"commitment-dropped", a[:count-1], z, av[:count-1], zv, false},
+			{"response-dropped", a, z[:count-1], av, zv[:count-1], false},
+		}
+		for _, v := range vs {
+			cs := fmt.Sprintf("sigma %s %s e=%s xs=%s as=%s zs=%s", id, v.name, vh.Hex(e), strings.Join(xv, "|"), strings.Join(v.av, "|"), strings.Join(v.zv, "|"))
+			h.res.Count("sigma-and-"+v.name+"/"+id, cs, true)
+			h.flush()
+			var verr error
+			pan := vh.Safely(func() { verr = proto.Verify(x, v.a, e, v.z) })
+			if pan != "" {
+				h.prop("sigand-verify-panics", cs, "n-way AND verifier panicked on a "+v.name+" transcript: "+trunc(pan, 120), "andn_verify rejects wrong lengths by an error")
+				continue
+			}
+			got := verr == nil
+			join := func(xs []string) string {
+				if len(xs) == 0 {
+					return "-"
+				}
+				return strings.Join(xs, "|")
+			}
+			mv := h.ask(fmt.Sprintf("AV %s 1 1 %d %d %s %s %s %s", q, L, count, vh.Hex(e), join(xv), join(v.av), join(v.zv)))
+			if mv != b2i(got) {
+				h.corr("sigand-"+v.name, cs, "model verdict "+mv+", implementation "+b2i(got), got != v.want, "Sigma.andn_verify (andn_accept_lengths) vs sigand.Verify")
+			} else if got != v.want {
+				h.prop("sigand-"+v.name, cs, fmt.Sprintf("Verify returned %v, expected %v", got, v.want), "andn_verify_iff")
 			}
 		}
 	}
